@@ -9,20 +9,24 @@ RUN_MODULE = "RunC18"
 TRANSLATOR_UNITS = []
 RULE = ("port algebra: exhaustive one-step scope (widths 0..4: every int index in [-w-1,w], every slice with start/stop in "
         "{None} u [-w-1,w+1] x step in {None,1,2,3,-1,-2,0} (all of them in thorough; in quick all for w <= 1 and a 30% sample "
-        "for w >= 2), every inversion mask for int indices, 2 masks for slices; "
-        "`+` of every direction pair and kind pair; `~`) + random expressions of <= 3 slicing/`+`/`~` steps over 1..3 base ports "
-        "(widths 0..6, kinds Simulation/SingleEnded/Differential) + malformed bases; "
+        "for w >= 2), every inversion mask for int indices, 2 masks for slices; `+` of every direction pair and kind pair; `~`) "
+        "+ random expressions of <= 3 slicing/`+`/`~` steps over 1..3 base ports (widths 0..6 and 8..65, kinds Simulation/"
+        "SingleEnded/Differential; `invert=` omitted / bool / iterable, `direction=` omitted / str / Direction, all normalised "
+        "by the model) + malformed bases; the Value tree of every simulation port is compared with the model's tree; "
         "Buffer simulated on SimulationPorts: widths 0..4 x all masks x all 9 (port,buffer) direction pairs with exhaustive "
-        "o/oe/i words for width <= 2 and random words otherwise, then random port expressions (duplicated wires included; "
-        "ports sliced out of a port that repeats a wire are capped at 25/120 cases, tag alias_under_slice: known finding); "
-        "FFBuffer: the same with sync / separate i,o domains / wrongly supplied domains and random edge patterns of 10 events; "
-        "netlist: 1..3 Buffers on slices of 1..3 SingleEnded/Differential IOPort-based ports (partitions, overlaps, reuse) "
-        "through Fragment.get + build_netlist, IOBuffer cells decoded symbolically (xor/not with constants traced to the "
-        "buffer's o/oe/i members). non-trivial = accepted by the implementation and some port involved has width > 0 "
-        "(for simulations: some step drives or reads a wire); distinct by case hash")
+        "o/oe/i words for width <= 2 and random words otherwise, then random port expressions (duplicated wires included, "
+        "plus a dedicated group of ports sliced out of a port that repeats a wire, tag alias*: known finding, recognised only "
+        "when the observation equals the model's prediction under the simulator's lowering); "
+        "FFBuffer: the same with i_domain/o_domain in {omitted, sync, a, b} resolved by the model, all three clocks declared, "
+        "random subsets of clocks ticking per event (10 events), wrongly supplied domains; "
+        "multi: 2..4 Buffers on a partition of one or two (concatenated) simulation ports in ONE simulated design; "
+        "netlist: 1..3 Buffers/FFBuffers on slices of 1..3 SingleEnded/Differential IOPort-based ports (partitions, overlaps, "
+        "reuse) through Fragment.get + build_netlist, IOBuffer cells decoded symbolically (xor/not with constants and "
+        "flip-flops with their clock traced to the buffer's o/oe/i members). non-trivial = accepted by the implementation "
+        "and some port involved has width > 0 (for simulations: some step drives or reads a wire); distinct by case hash")
 MODELLED = ("lib.io Direction.__and__, SingleEndedPort/DifferentialPort/SimulationPort __init__ length checks, __getitem__ "
             "(via Value/IOValue.__getitem__, Slice/IOSlice bounds checks, tuple slicing, slice.indices), __add__, __invert__, "
-            "Buffer/FFBuffer.__init__ direction checks, Buffer.elaborate (inversion constant, SimulationPort loop-back, "
+            "Buffer/FFBuffer.__init__ direction and domain checks (`x or \"sync\"`), the `invert=`/`direction=` normalisation, Buffer.elaborate (inversion constant, SimulationPort loop-back, "
             "IOBufferInstance per port kind), FFBuffer.elaborate registers, NetlistEmitter.emit_io/emit_io_use/emit_iobuffer "
             "are modelled in coq/Model/Io.v; the simulator's settling of the combinational statements, wiring.Component "
             "signature plumbing, Fragment/Design traversal order and nir net allocation are validated only")
@@ -38,14 +42,18 @@ def classify(c):
     return c["k"] + ":" + c.get("tag", "")
 
 
+def _widths(c):
+    return [b[2] for b in c["bases"]]
+
+
 def nontrivial(c, obs):
     if not obs or obs[0] != 1:
         return False
-    widths = [b[2] for b in c["bases"]]
+    widths = _widths(c)
     if c["k"] == "port":
         return max(widths, default=0) > 0
-    if c["k"] == "net":
-        return any((_plen(e, widths) or 0) > 0 for _, e in c["bufs"])
+    if c["k"] in ("net", "multi"):
+        return any((_plen(b[1], widths) or 0) > 0 for b in c["bufs"])
     return (_plen(c["e"], widths) or 0) > 0
 
 
@@ -73,9 +81,9 @@ def _plen(e, widths):
     return len(range(a, b, s))
 
 
-def _wires(e, widths, seen=None):
+def _wires(e, widths):
     """(wire list of a port expression, True if some subexpression under a slice/index repeats a wire);
-    None if it raises.  Wires are (base, bit)."""
+    None if it raises.  Only used to steer the generator (tags), never to produce or to filter an answer."""
     t = e[0]
     if t == "b":
         return [(e[1], k) for k in range(widths[e[1]])], False
@@ -102,16 +110,23 @@ def _wires(e, widths, seen=None):
     return [w[i] for i in range(a, b, s)], al
 
 
-def _alias_under_slice(c):
-    r = _wires(c["e"], [b[2] for b in c["bases"]])
+def _alias_under_slice(e, widths):
+    r = _wires(e, widths)
     return bool(r and r[1])
 
 
+SIM_MARK = -7
+
+
 def known_finding(case, obs, model):
-    # The simulator lowers an assignment to Slice(Cat(...)) as read-modify-write of the whole Cat; when the Cat
-    # names a signal bit twice, the stale copy is written back over the new value (netlist semantics: per bit).
-    if case["k"] in ("buf", "ff") and _alias_under_slice(case):
-        return "C18-SIM-LHS-ALIAS"
+    # The model answers with the specified per-bit behaviour; when the simulator's lowering of the port's Value tree
+    # (read-modify-write of a whole Cat under a Slice, _pyrtl._LHSValueCompiler) predicts something else, the model
+    # appends that prediction after SIM_MARK (RunC18.with_sim).  The mismatch is the listed finding only if the
+    # observation is exactly that prediction.
+    if case["k"] in ("buf", "ff") and model and model[0] == 1 and SIM_MARK in model:
+        k = model.index(SIM_MARK)
+        if obs == [1] + model[k + 1:]:
+            return "C18-SIM-LHS-ALIAS"
     return None
 
 
@@ -161,13 +176,23 @@ def _rand_expr(rng, widths, nb, steps, malformed=False):
     return e
 
 
-def _rand_base(rng, kind, d=None, wmax=6):
-    w = rng.randrange(0, wmax + 1)
-    inv = [rng.randrange(2) for _ in range(w)]
-    if rng.random() < 0.15:
-        inv = [inv[0] if inv else 0] * w
-    asb = int(len(set(inv)) <= 1 and rng.random() < 0.5)
-    return [kind, rng.randrange(3) if d is None else d, w, inv, asb]
+WIDE = (8, 13, 17, 32, 33, 64, 65)
+
+
+def _rand_base(rng, kind, d=None, wmax=6, wide=0.04):
+    """base = [kind, direction (0/1/2, or None = argument omitted), width, invert (None omitted | bool | list), dform]"""
+    w = rng.choice(WIDE) if rng.random() < wide else rng.randrange(0, wmax + 1)
+    q = rng.random()
+    if q < 0.08:
+        inv = None
+    elif q < 0.2:
+        inv = bool(rng.randrange(2))
+    else:
+        inv = [rng.randrange(2) for _ in range(w)]
+    d = rng.randrange(3) if d is None else d
+    if kind != 0 and d == 2 and rng.random() < 0.3:
+        d = None
+    return [kind, d, w, inv, rng.randrange(2)]
 
 
 def _bits(m, w):
@@ -185,27 +210,44 @@ def _compat_dirs(rng, nb, want_err):
     return ds, bd
 
 
-def _steps(rng, bases, n, ff, same):
+def _word(rng, mode, w):
+    if mode < 0.1:
+        return 0
+    if mode < 0.2:
+        return (1 << w) - 1
+    return rng.randrange(1 << w)
+
+
+def _steps(rng, bases, n, ff, ow=None):
     out = []
-    wmax = max([b[2] for b in bases] + [1])
-    tot = sum(b[2] for b in bases) + 1
+    tot = min(sum(b[2] for b in bases) + 1, 70) if ow is None else ow
     for k in range(n):
         mode = rng.random()
-        def word(w):
-            if mode < 0.1:
-                return 0
-            if mode < 0.2:
-                return (1 << w) - 1
-            return rng.randrange(1 << w)
-        st = [word(min(tot, 12)), rng.randrange(2) if rng.random() < 0.8 else 1, [word(b[2]) for b in bases]]
+        st = [_word(rng, mode, tot), rng.randrange(2) if rng.random() < 0.8 else 1, [_word(rng, mode, b[2]) for b in bases]]
         if ff:
-            if same:
-                e = int(rng.random() < 0.75)
-                st += [e, e]
-            else:
-                st += [int(rng.random() < 0.6), int(rng.random() < 0.6)]
+            st.append([int(rng.random() < 0.55) for _ in range(3)])
         out.append(st)
     return out
+
+
+DOMS = (None, "sync", "a", "b")
+
+
+def _rand_doms(rng, bd, bad=False):
+    i = rng.choice(DOMS) if bd != 1 else None
+    o = rng.choice(DOMS) if bd != 0 else None
+    if bad:
+        if bd == 1:
+            i = rng.choice(DOMS[1:])
+        elif bd == 0:
+            o = rng.choice(DOMS[1:])
+    return i, o
+
+
+def _partition(rng, src, n, parts):
+    cuts = sorted(rng.randrange(0, n + 1) for _ in range(parts - 1))
+    cuts = [0] + cuts + [n]
+    return [["s", src, a, b, None] for a, b in zip(cuts, cuts[1:])]
 
 
 def gen_cases(tier, seed):
@@ -218,7 +260,7 @@ def gen_cases(tier, seed):
         for m in masks:
             kind = m % 3
             d = (m // 3) % 3
-            base = [kind, d, w, _bits(m, w), 0]
+            base = [kind, d, w, _bits(m, w), m % 2]
             for i in range(-w - 1, w + 1):
                 cases.append({"k": "port", "tag": "idx", "bases": [base], "e": ["i", ["b", 0], i]})
             cases.append({"k": "port", "tag": "inv", "bases": [base], "e": ["~", ["b", 0]]})
@@ -238,8 +280,8 @@ def gen_cases(tier, seed):
         for k2 in range(3):
             for d1 in range(3):
                 for d2 in range(3):
-                    b1 = _rand_base(rng, k1, d1, 3)
-                    b2 = _rand_base(rng, k2, d2, 3)
+                    b1 = _rand_base(rng, k1, d1, 3, 0)
+                    b2 = _rand_base(rng, k2, d2, 3, 0)
                     cases.append({"k": "port", "tag": "add", "bases": [b1, b2], "e": ["+", ["b", 0], ["b", 1]]})
     # (p+q)[k]
     for _ in range(150 if not thorough else 1500):
@@ -248,13 +290,18 @@ def gen_cases(tier, seed):
         n = b1[2] + b2[2]
         cases.append({"k": "port", "tag": "add_idx", "bases": [b1, b2],
                       "e": ["i", ["+", ["b", 0], ["b", 1]], rng.randrange(-n - 1, n + 1)]})
-    # malformed bases
+    # every way of giving invert= / direction=, and malformed bases
     for kind in range(3):
         for w in range(0, 4):
             for l in range(0, 5):
                 cases.append({"k": "port", "tag": "badbase" if l != w else "base",
-                              "bases": [[kind, rng.randrange(3), w, [rng.randrange(2) for _ in range(l)], 0]],
+                              "bases": [[kind, rng.randrange(3), w, [rng.randrange(2) for _ in range(l)], l % 2]],
                               "e": ["b", 0]})
+            for inv in (None, False, True):
+                for d in (0, 1, 2) + ((None,) if kind else ()):
+                    for dform in (0, 1):
+                        cases.append({"k": "port", "tag": "base_args", "bases": [[kind, d, w, inv, dform]],
+                                      "e": ["~", ["b", 0]] if w % 2 else ["b", 0]})
     # random expressions
     for _ in range(1000 if not thorough else 15000):
         nb = rng.randrange(1, 4)
@@ -268,24 +315,39 @@ def gen_cases(tier, seed):
         for m in range(1 << w):
             for pd in range(3):
                 for bd in range(3):
-                    base = [0, pd, w, _bits(m, w), int(m in (0, (1 << w) - 1) and (m + pd) % 2 == 0)]
+                    inv = _bits(m, w)
+                    if m in (0, (1 << w) - 1) and (m + pd) % 2 == 0:
+                        inv = bool(m) if (pd + bd) % 3 or m else None
+                    base = [0, pd, w, inv, (m + bd) % 2]
                     if w <= 2:
                         steps = [[o, oe, [i]] for o in range(1 << w) for oe in range(2) for i in range(1 << w)]
                     else:
-                        steps = _steps(rng, [base], 8, False, True)
+                        steps = _steps(rng, [base], 8, False)
                     ok = pd == 2 or pd == bd
                     cases.append({"k": "buf", "tag": ("w%d" % w) if ok else "baddir", "bases": [base], "e": ["b", 0],
-                                  "bd": bd, "steps": steps})
+                                  "bd": bd, "bdform": (m + pd) % 2, "steps": steps})
                     if w <= 3 or thorough or rng.random() < 0.4:
-                        for doms in ("sync", "ab"):
-                            cases.append({"k": "ff", "tag": (doms if ok else "baddir"), "bases": [base], "e": ["b", 0],
-                                          "bd": bd, "doms": doms, "steps": _steps(rng, [base], 10, True, doms == "sync")})
-    for bd, doms in ((1, "bad_i"), (1, "bad_io"), (0, "bad_o"), (0, "bad_io")):
-        for w in (0, 2):
-            base = [0, 2, w, [1, 0][:w], 0]
-            cases.append({"k": "ff", "tag": "baddom", "bases": [base], "e": ["b", 0], "bd": bd, "doms": doms,
-                          "steps": _steps(rng, [base], 4, True, False)})
-    n_alias = 0
+                        for n in range(2):
+                            i, o = (None, None) if n == 0 else _rand_doms(rng, bd)
+                            cases.append({"k": "ff", "tag": ("dflt" if n == 0 else "named") if ok else "baddir",
+                                          "bases": [base], "e": ["b", 0], "bd": bd, "bdform": n, "idom": i, "odom": o,
+                                          "steps": _steps(rng, [base], 10, True)})
+    for bd in (0, 1):
+        for dname in DOMS[1:]:
+            for w in (0, 2):
+                base = [0, 2, w, [1, 0][:w], 0]
+                i, o = (dname, None) if bd == 1 else (None, dname)
+                cases.append({"k": "ff", "tag": "baddom", "bases": [base], "e": ["b", 0], "bd": bd, "bdform": 0,
+                              "idom": i, "odom": o, "steps": _steps(rng, [base], 4, True)})
+
+    def add_sim(bases, e, bd, tag, bad=False):
+        if rng.random() < 0.55:
+            cases.append({"k": "buf", "tag": tag, "bases": bases, "e": e, "bd": bd, "bdform": rng.randrange(2),
+                          "steps": _steps(rng, bases, 8, False)})
+        else:
+            i, o = _rand_doms(rng, bd, bad and rng.random() < 0.3)
+            cases.append({"k": "ff", "tag": tag, "bases": bases, "e": e, "bd": bd, "bdform": rng.randrange(2),
+                          "idom": i, "odom": o, "steps": _steps(rng, bases, 10, True)})
     for _ in range(1000 if not thorough else 12000):
         nb = rng.randrange(1, 4)
         bad = rng.random() < 0.1
@@ -294,19 +356,57 @@ def gen_cases(tier, seed):
         mal = rng.random() < 0.08
         e = _rand_expr(rng, [b[2] for b in bases], nb, rng.randrange(0, 4), mal)
         tag = "rand" + ("_baddir" if bad else "") + ("_mal" if mal else "")
-        if _alias_under_slice({"e": e, "bases": bases}):
-            # ports sliced out of a port that repeats a wire: see known_finding; keep a few
-            n_alias += 1
-            if n_alias > (25 if not thorough else 120):
-                continue
-            tag = "alias_under_slice"
-        if rng.random() < 0.55:
-            cases.append({"k": "buf", "tag": tag, "bases": bases, "e": e, "bd": bd,
-                          "steps": _steps(rng, bases, 8, False, True)})
+        if _alias_under_slice(e, [b[2] for b in bases]):
+            tag = "alias_rand"
+        add_sim(bases, e, bd, tag, bad)
+    # ports sliced out of a port that repeats a wire (finding C18-SIM-LHS-ALIAS), built on purpose
+    for _ in range(60 if not thorough else 600):
+        nb = rng.randrange(1, 3)
+        ds, bd = _compat_dirs(rng, nb, False)
+        if bd == 0:
+            bd = rng.choice((1, 2))
+            ds = [2] * nb
+        bases = [_rand_base(rng, 0, ds[b], 4, 0) for b in range(nb)]
+        bases[0][2] = max(bases[0][2], 1)
+        if isinstance(bases[0][3], list):
+            bases[0][3] = [rng.randrange(2) for _ in range(bases[0][2])]
+        widths = [b[2] for b in bases]
+        x = ["b", 0]
+        y = rng.choice([["b", 0], ["s", ["b", 0], 0, rng.randrange(1, widths[0] + 1), None], ["~", ["b", 0]]])
+        src = ["+", x, y] if rng.random() < 0.6 else ["+", y, ["+", ["b", nb - 1], x]]
+        n = _plen(src, widths)
+        q = rng.random()
+        if q < 0.4:
+            e = ["i", src, rng.randrange(-n, n)]
+        elif q < 0.8:
+            lo = rng.randrange(0, n)
+            e = ["s", src, lo, rng.randrange(lo, n + 1), None]
         else:
-            doms = rng.choice(["sync", "ab", "ab"])
-            cases.append({"k": "ff", "tag": tag + "_" + doms, "bases": bases, "e": e, "bd": bd, "doms": doms,
-                          "steps": _steps(rng, bases, 10, True, doms == "sync")})
+            e = ["s", src, None, None, rng.choice((2, -1, 3))]
+        if rng.random() < 0.3:
+            e = ["~", e]
+        add_sim(bases, e, bd, "alias_built")
+    # several buffers on a partition of one (concatenated) port, one simulated design
+    for _ in range(200 if not thorough else 2500):
+        nb = rng.randrange(1, 3)
+        bases = [_rand_base(rng, 0, 2, 5, 0.02) for _ in range(nb)]
+        widths = [b[2] for b in bases]
+        src = ["b", 0] if nb == 1 or rng.random() < 0.4 else ["+", ["b", 0], ["~", ["b", 1]]]
+        n = _plen(src, widths)
+        bufs = []
+        for e in _partition(rng, src, n, rng.randrange(2, 5)):
+            if rng.random() < 0.3:
+                e = ["~", e]
+            bufs.append([rng.randrange(3), e])
+        if rng.random() < 0.4:                      # an extra Input buffer overlapping the others (drives nothing)
+            bufs.insert(rng.randrange(len(bufs) + 1), [0, _rand_expr(rng, widths, nb, rng.randrange(0, 3))])
+        steps = []
+        for _k in range(6):
+            mode = rng.random()
+            steps.append([[[_word(rng, mode, (_plen(e, widths) or 0) + 1), rng.randrange(2)] for _, e in bufs],
+                          [_word(rng, mode, w) for w in widths]])
+        cases.append({"k": "multi", "tag": "partition" if src[0] == "b" else "partition_cat", "bases": bases,
+                      "bufs": bufs, "steps": steps})
     # ---------------------------------------------------------------- netlists of buffers on real ports
     # every width/mask/direction, one buffer on the whole port
     for kind in (1, 2):
@@ -314,41 +414,55 @@ def gen_cases(tier, seed):
             for m in range(1 << w):
                 for pd in range(3):
                     for bd in range(3):
-                        cases.append({"k": "net", "tag": "whole" if (pd == 2 or pd == bd) else "baddir",
-                                      "bases": [[kind, pd, w, _bits(m, w), 0]], "bufs": [[bd, ["b", 0]]]})
+                        ff = None
+                        if (m + pd + bd + kind) % 3 == 0:
+                            ff = list(_rand_doms(rng, bd))
+                        cases.append({"k": "net", "tag": ("whole" if ff is None else "whole_ff") if (pd == 2 or pd == bd)
+                                      else "baddir",
+                                      "bases": [[kind, pd if (pd != 2 or m % 2) else None, w, _bits(m, w), bd % 2]],
+                                      "bufs": [[bd, ["b", 0], ff]]})
+    for bd in (0, 1):
+        for dname in DOMS[1:]:
+            i, o = (dname, None) if bd == 1 else (None, dname)
+            cases.append({"k": "net", "tag": "baddom", "bases": [[1, 2, 2, [1, 0], 0]], "bufs": [[bd, ["b", 0], [i, o]]]})
     for _ in range(800 if not thorough else 10000):
         nb = rng.randrange(1, 4)
         kind = rng.choice((1, 2))
         bases = [_rand_base(rng, kind if rng.random() < 0.95 else 3 - kind, 2 if rng.random() < 0.8 else None, 5)
                  for _ in range(nb)]
+        widths = [b[2] for b in bases]
         mode = rng.random()
         bufs = []
+
+        def ffspec(bd):
+            return list(_rand_doms(rng, bd, rng.random() < 0.05)) if rng.random() < 0.4 else None
         if mode < 0.55:
             # partition of base 0 (or of b0 + b1) into consecutive slices, each its own buffer
             src = ["b", 0]
-            n = bases[0][2]
             if nb > 1 and bases[1][0] == bases[0][0] and rng.random() < 0.5:
                 src = ["+", ["b", 0], ["~", ["b", 1]]] if rng.random() < 0.5 else ["+", ["b", 1], ["b", 0]]
-                n += bases[1][2]
-            cuts = sorted(rng.randrange(0, n + 1) for _ in range(rng.randrange(0, 3)))
-            cuts = [0] + cuts + [n]
-            for a, b in zip(cuts, cuts[1:]):
-                e = ["s", src, a, b, None]
+            n = _plen(src, widths)
+            for e in _partition(rng, src, n, rng.randrange(1, 4)):
                 if rng.random() < 0.3:
                     e = ["~", e]
                 if rng.random() < 0.15:
                     e = ["s", e, None, None, -1]
-                bufs.append([rng.randrange(3), e])
+                bd = rng.randrange(3)
+                bufs.append([bd, e, ffspec(bd)])
             tag = "partition"
         elif mode < 0.8:
-            for _ in range(rng.randrange(1, 4)):
-                bufs.append([rng.randrange(3), _rand_expr(rng, [b[2] for b in bases], nb, rng.randrange(0, 3))])
+            for _k in range(rng.randrange(1, 4)):
+                bd = rng.randrange(3)
+                bufs.append([bd, _rand_expr(rng, widths, nb, rng.randrange(0, 3)), ffspec(bd)])
             tag = "overlap"
         else:
             for j in range(nb):
-                e = _rand_expr(rng, [b[2] for b in bases], nb, rng.randrange(0, 4), rng.random() < 0.2)
-                bufs.append([rng.randrange(3), e])
+                e = _rand_expr(rng, widths, nb, rng.randrange(0, 4), rng.random() < 0.2)
+                bd = rng.randrange(3)
+                bufs.append([bd, e, ffspec(bd)])
             tag = "rand"
+        if any(b[2] is not None for b in bufs):
+            tag += "_ff"
         cases.append({"k": "net", "tag": tag, "bases": bases, "bufs": bufs})
     rng.shuffle(cases)          # uniform shards
     return cases
@@ -359,29 +473,35 @@ def _err(e):
     return [0, ERR.get(type(e).__name__, 90 + len(type(e).__name__))]
 
 
+def _dirarg(d, form):
+    from amaranth.lib import io
+    return io.Direction(DIRS[d]) if form else DIRS[d]
+
+
 def _mk_bases(bases):
     from amaranth.hdl import IOPort
     from amaranth.lib import io
     ports, sigmap, iomap = [], {}, {}
-    for b, (kind, d, w, inv, asb) in enumerate(bases):
-        arg = [bool(x) for x in inv]
-        if asb and len(set(inv)) <= 1 and len(inv) == w:
-            arg = bool(inv[0]) if inv else False
+    for b, (kind, d, w, inv, dform) in enumerate(bases):
+        kw = {}
+        if inv is not None:
+            kw["invert"] = inv if isinstance(inv, bool) else [bool(x) for x in inv]
         if kind == 0:
-            p = io.SimulationPort(DIRS[d], w, invert=arg, name=f"p{b}")
+            p = io.SimulationPort(_dirarg(d, dform), w, name=f"p{b}", **kw)
             for s in (p._i, p._o, p._oe):
                 if s is not None:
                     sigmap[id(s)] = b
-        elif kind == 1:
-            a = IOPort(w, name=f"io{2 * b}")
-            iomap[id(a)] = 2 * b
-            p = io.SingleEndedPort(a, invert=arg, direction=DIRS[d])
         else:
+            if d is not None:
+                kw["direction"] = _dirarg(d, dform)
             a = IOPort(w, name=f"io{2 * b}")
-            n = IOPort(w, name=f"io{2 * b + 1}")
             iomap[id(a)] = 2 * b
-            iomap[id(n)] = 2 * b + 1
-            p = io.DifferentialPort(a, n, invert=arg, direction=DIRS[d])
+            if kind == 1:
+                p = io.SingleEndedPort(a, **kw)
+            else:
+                n = IOPort(w, name=f"io{2 * b + 1}")
+                iomap[id(n)] = 2 * b + 1
+                p = io.DifferentialPort(a, n, **kw)
         ports.append(p)
     return ports, sigmap, iomap
 
@@ -417,6 +537,21 @@ def _flat_value(v, sigmap):
     raise TypeError(repr(v))
 
 
+def _enc_value(v, sigmap):
+    """the Value tree itself: Signal -> 0 b w, Slice -> 1 lo hi v, Cat -> 2 n parts"""
+    from amaranth.hdl._ast import Signal, Slice, Concat
+    if isinstance(v, Signal):
+        return [0, sigmap[id(v)], len(v)]
+    if isinstance(v, Slice):
+        return [1, v.start, v.stop] + _enc_value(v.value, sigmap)
+    if isinstance(v, Concat):
+        out = [2, len(v.parts)]
+        for p in v.parts:
+            out += _enc_value(p, sigmap)
+        return out
+    raise TypeError(repr(v))
+
+
 def _flat_io(v, iomap):
     from amaranth.hdl._ast import IOPort, IOSlice, IOConcat
     if isinstance(v, IOPort):
@@ -443,6 +578,7 @@ def _run_port(c):
     if not all(isinstance(x, bool) for x in p.invert) or not isinstance(p.invert, tuple):
         return [-2, 1]
     nrefs = []
+    tree = []
     if isinstance(p, io.SimulationPort):
         kind = 0
         present = [s for s in (p._i, p._o, p._oe) if s is not None]
@@ -450,9 +586,11 @@ def _run_port(c):
         if len(present) != want or (p._i is None) != (d == 1) or (p._o is None) != (d == 0) or (p._oe is None) != (d == 0):
             return [-2, 2]
         fl = [_flat_value(s, sigmap) for s in present]
-        if any(f != fl[0] for f in fl):
+        trees = [_enc_value(s, sigmap) for s in present]
+        if any(f != fl[0] for f in fl) or any(t != trees[0] for t in trees):
             return [-2, 3]
         refs = fl[0]
+        tree = trees[0]
     elif isinstance(p, io.SingleEndedPort):
         kind = 1
         refs = _flat_io(p.io, iomap)
@@ -465,10 +603,10 @@ def _run_port(c):
     out = [1, kind, d, len(refs), len(nrefs), len(inv)] + inv
     for r in refs + nrefs:
         out += list(r)
-    return out
+    return out + tree
 
 
-def _obs_sim(ctx, ports, buf, bd):
+def _obs_bases(ctx, ports):
     out = []
     for p in ports:
         if p._o is not None:
@@ -476,8 +614,13 @@ def _obs_sim(ctx, ports, buf, bd):
     for p in ports:
         if p._oe is not None:
             out.append(ctx.get(p._oe))
-    out.append(ctx.get(buf.i) if bd != 1 else 0)
     return out
+
+
+def _set_bases(ctx, ports, iv):
+    for b, base in enumerate(ports):
+        if base._i is not None:
+            ctx.set(base._i, iv[b])
 
 
 def _run_buf(c):
@@ -488,7 +631,7 @@ def _run_buf(c):
     try:
         ports, sigmap, iomap = _mk_bases(c["bases"])
         p = _build(c["e"], ports)
-        buf = io.Buffer(DIRS[bd], p)
+        buf = io.Buffer(_dirarg(bd, c.get("bdform", 0)), p)
     except Exception as e:
         return _err(e)
     m = Module()
@@ -501,32 +644,51 @@ def _run_buf(c):
             if bd != 0:
                 ctx.set(buf.o, o & ((1 << len(p)) - 1))
                 ctx.set(buf.oe, oe)
-            for b, base in enumerate(ports):
-                if base._i is not None:
-                    ctx.set(base._i, iv[b])
-            out.extend(_obs_sim(ctx, ports, buf, bd))
+            _set_bases(ctx, ports, iv)
+            out.extend(_obs_bases(ctx, ports))
+            out.append(ctx.get(buf.i) if bd != 1 else 0)
     sim.add_testbench(tb)
     sim.run()
     return out
 
 
-def _ff_doms(c):
-    """-> (kwargs for FFBuffer, domains to declare, i clock name, o clock name)"""
-    bd, doms = c["bd"], c["doms"]
-    if doms == "sync":
-        return {}, ["sync"], "sync", "sync"
+def _run_multi(c):
+    from amaranth.hdl import Module
+    from amaranth.lib import io
+    from amaranth.sim import Simulator
+    try:
+        ports, sigmap, iomap = _mk_bases(c["bases"])
+        bufs = [io.Buffer(DIRS[bd], _build(e, ports)) for bd, e in c["bufs"]]
+    except Exception as e:
+        return _err(e)
+    m = Module()
+    for j, b in enumerate(bufs):
+        m.submodules[f"b{j}"] = b
+    sim = Simulator(m)
+    out = [1]
+
+    async def tb(ctx):
+        for oes, iv in c["steps"]:
+            for b, (o, oe) in zip(bufs, oes):
+                if b.direction.value != "i":
+                    ctx.set(b.o, o & ((1 << len(b.port)) - 1))
+                    ctx.set(b.oe, oe)
+            _set_bases(ctx, ports, iv)
+            out.extend(_obs_bases(ctx, ports))
+            for b in bufs:
+                out.append(ctx.get(b.i) if b.direction.value != "o" else 0)
+    sim.add_testbench(tb)
+    sim.run()
+    return out
+
+
+def _ff_kwargs(i, o):
     kw = {}
-    if doms == "ab":
-        if bd != 1:
-            kw["i_domain"] = "a"
-        if bd != 0:
-            kw["o_domain"] = "b"
-    else:
-        if "i" in doms[4:]:
-            kw["i_domain"] = "a"
-        if "o" in doms[4:]:
-            kw["o_domain"] = "b"
-    return kw, ["a", "b"], "a", "b"
+    if i is not None:
+        kw["i_domain"] = i
+    if o is not None:
+        kw["o_domain"] = o
+    return kw
 
 
 def _run_ff(c):
@@ -534,61 +696,58 @@ def _run_ff(c):
     from amaranth.lib import io
     from amaranth.sim import Simulator
     bd = c["bd"]
-    kw, decl, ci, co = _ff_doms(c)
     try:
         ports, sigmap, iomap = _mk_bases(c["bases"])
         p = _build(c["e"], ports)
-        ff = io.FFBuffer(DIRS[bd], p, **kw)
+        ff = io.FFBuffer(_dirarg(bd, c.get("bdform", 0)), p, **_ff_kwargs(c["idom"], c["odom"]))
     except Exception as e:
         return _err(e)
     m = Module()
-    cds = {}
-    for name in decl:
-        cds[name] = ClockDomain(name)
-        m.domains += cds[name]
-    if (ff.i_domain or ci) != ci and bd != 1 or (ff.o_domain or co) != co and bd != 0:
-        return [-2, 5]
+    cds = [ClockDomain(n) for n in ("sync", "a", "b")]      # the buffer finds its clocks by name
+    for cd in cds:
+        m.domains += cd
     m.submodules.ff = ff
     sim = Simulator(m)
     out = [1]
+    clks = Cat(cd.clk for cd in cds)
 
     async def tb(ctx):
-        for o, oe, iv, ei, eo in c["steps"]:
+        for o, oe, iv, t in c["steps"]:
             if bd != 0:
                 ctx.set(ff.o, o & ((1 << len(p)) - 1))
                 ctx.set(ff.oe, oe)
-            for b, base in enumerate(ports):
-                if base._i is not None:
-                    ctx.set(base._i, iv[b])
-            if ci == co:
-                if ei:
-                    ctx.set(cds[ci].clk, 1)
-            elif ei or eo:
-                ctx.set(Cat(cds[ci].clk, cds[co].clk), ei | (eo << 1))
-            out.extend(_obs_sim(ctx, ports, ff, bd))
-            if ci == co:
-                ctx.set(cds[ci].clk, 0)
-            else:
-                ctx.set(Cat(cds[ci].clk, cds[co].clk), 0)
+            _set_bases(ctx, ports, iv)
+            if any(t):
+                ctx.set(clks, t[0] | t[1] << 1 | t[2] << 2)
+            out.extend(_obs_bases(ctx, ports))
+            out.append(ctx.get(ff.i) if bd != 1 else 0)
+            ctx.set(clks, 0)
     sim.add_testbench(tb)
     sim.run()
     return out
 
 
 def _run_net(c):
-    from amaranth.hdl import Module
+    from amaranth.hdl import Module, ClockDomain
     from amaranth.hdl._ir import build_netlist, Fragment
     from amaranth.hdl import _nir
     from amaranth.lib import io
     try:
         ports, sigmap, iomap = _mk_bases(c["bases"])
         bufs = []
-        for bd, e in c["bufs"]:
-            bufs.append(io.Buffer(DIRS[bd], _build(e, ports)))
+        for bd, e, ff in c["bufs"]:
+            p = _build(e, ports)
+            if ff is None:
+                bufs.append(io.Buffer(DIRS[bd], p))
+            else:
+                bufs.append(io.FFBuffer(DIRS[bd], p, **_ff_kwargs(*ff)))
     except Exception as e:
         return _err(e)
     m = Module()
-    sigs = []
+    cds = [ClockDomain(n) for n in ("sync", "a", "b")]
+    for cd in cds:
+        m.domains += cd
+    sigs = [cd.clk for cd in cds]
     for j, b in enumerate(bufs):
         m.submodules[f"b{j}"] = b
         d = b.direction.value
@@ -608,40 +767,53 @@ def _run_net(c):
                 net2sig[net] = ("o", j, k)
             for k, net in enumerate(nl.signals[b.oe]):
                 net2sig[net] = ("oe", j, k)
+    clk2dom = {}
+    for n, cd in enumerate(cds):
+        v = nl.signals.get(cd.clk)
+        if v is not None and len(v) == 1 and not v[0].is_const:
+            clk2dom[v[0]] = n + 1
 
     def trace(net, depth=0):
-        """-> (source, inverted); source = ('o'|'oe', buf, bit) | ('cell', idx, bit) | ('const', v) | ('?',)"""
+        """-> (source, inverted, clock domains of the flip-flops passed, outermost first);
+        source = ('o'|'oe', buf, bit) | ('cell', idx, bit) | ('const', v) | ('?',)"""
         if net in net2sig:
-            return net2sig[net], 0
+            return net2sig[net], 0, ()
         if net.is_const:
-            return ("const", net.const), 0
+            return ("const", net.const), 0, ()
         if net.is_late or depth > 8 or net.cell == 0:
-            return ("?", int(net)), 0
+            return ("?", int(net)), 0, ()
         cell = nl.cells[net.cell]
         if isinstance(cell, _nir.IOBuffer):
-            return ("cell", net.cell, net.bit), 0
+            return ("cell", net.cell, net.bit), 0, ()
+        if isinstance(cell, _nir.FlipFlop):
+            # a plain register: rising edge, init 0, no asynchronous reset
+            if cell.clk_edge != "pos" or cell.init != 0 or not (cell.arst.is_const and cell.arst.const == 0):
+                return ("?", int(net)), 0, ()
+            s, i, f = trace(cell.data[net.bit], depth + 1)
+            return s, i, (clk2dom.get(cell.clk, 9),) + f
         if isinstance(cell, _nir.Operator) and cell.operator == "~":
-            s, i = trace(cell.inputs[0][net.bit], depth + 1)
-            return s, i ^ 1
+            s, i, f = trace(cell.inputs[0][net.bit], depth + 1)
+            return s, i ^ 1, f
         if isinstance(cell, _nir.Operator) and cell.operator == "^":
-            (s1, i1), (s2, i2) = (trace(v[net.bit], depth + 1) for v in cell.inputs)
+            (s1, i1, f1), (s2, i2, f2) = (trace(v[net.bit], depth + 1) for v in cell.inputs)
             if s2[0] == "const":
-                return s1, i1 ^ i2 ^ s2[1]
+                return s1, i1 ^ i2 ^ s2[1], f1
             if s1[0] == "const":
-                return s2, i1 ^ i2 ^ s1[1]
-        return ("?", int(net)), 0
+                return s2, i1 ^ i2 ^ s1[1], f2
+        return ("?", int(net)), 0, ()
 
     iobs = [(idx, cell) for idx, cell in enumerate(nl.cells) if isinstance(cell, _nir.IOBuffer)]
     out = [1, len(iobs)]
     dcode = {"input": 0, "output": 1, "inout": 2}
     pos = 0
     for j, b in enumerate(bufs):
-        mine = [(idx, cell) for idx, cell in iobs if nl.modules[cell.module_idx].name[-1] == f"b{j}"]
+        mine = [(idx, cell) for idx, cell in iobs if nl.modules[cell.module_idx].name[1] == f"b{j}"]
         # cells of consecutive buffers must appear in order
         if [idx for idx, _ in mine] != [idx for idx, _ in iobs[pos:pos + len(mine)]]:
             return [-2, 6]
         pos += len(mine)
         out.append(len(mine))
+        oregs, iregs = set(), set()
         for idx, cell in mine:
             out += [dcode[cell.dir.value], len(cell.port)]
             for net in cell.port:
@@ -651,24 +823,33 @@ def _run_net(c):
             else:
                 out.append(len(cell.o))
                 for net in cell.o:
-                    s, inv = trace(net)
+                    s, inv, f = trace(net)
                     if s[0] != "o" or s[1] != j:
                         return [-2, 7]
                     out += [s[2], inv]
-                s, inv = trace(cell.oe)
+                    oregs.add(f)
+                s, inv, f = trace(cell.oe)
                 if s != ("oe", j, 0) or inv:
                     return [-2, 8]
+                oregs.add(f)
         if "i" in b.direction.value:
             nets = nl.signals[b.i]
             out.append(len(nets))
             local = {idx: n for n, (idx, _) in enumerate(mine)}
             for net in nets:
-                s, inv = trace(net)
+                s, inv, f = trace(net)
                 if s[0] != "cell" or s[1] not in local:
                     return [-2, 9]
                 out += [local[s[1]], s[2], inv]
+                iregs.add(f)
         else:
             out.append(0)
+        # register stages: every bit of a direction must pass the same registers
+        for regs in (oregs, iregs):
+            if len(regs) > 1 or any(len(set(f)) > 1 for f in regs):
+                return [-2, 10]
+            f = next(iter(regs)) if regs else ()      # (a zero-width buffer has no i bit: nothing to see there)
+            out += [0, 0] if not f else [len(f), f[0]]
     return out
 
 
@@ -680,6 +861,8 @@ def run_impl(c):
         return _run_buf(c)
     if k == "ff":
         return _run_ff(c)
+    if k == "multi":
+        return _run_multi(c)
     if k == "net":
         return _run_net(c)
     raise ValueError(k)
@@ -694,8 +877,24 @@ def _dir(d):
     return ("DIn", "DOut", "DBidir")[d]
 
 
+def _odir(d):
+    return "None" if d is None else f"(Some {_dir(d)})"
+
+
 def _bl(bs):
     return "[" + "; ".join(blit(b) for b in bs) + "]"
+
+
+def _inv(inv):
+    if inv is None:
+        return "InvDefault"
+    if isinstance(inv, bool):
+        return f"(InvBool {blit(inv)})"
+    return f"(InvList {_bl(inv)})"
+
+
+def _dom(d):
+    return "None" if d is None else "(Some %s)" % {"sync": "DSync", "a": "DA", "b": "DB"}[d]
 
 
 def _expr(e):
@@ -712,8 +911,13 @@ def _expr(e):
 
 
 def _bases(bases):
-    con = ("BSim", "BSingle", "BDiff")
-    return "[" + "; ".join(f"{con[k]} {_dir(d)} {w} {_bl(inv)}" for k, d, w, inv, _ in bases) + "]"
+    out = []
+    for k, d, w, inv, _ in bases:
+        if k == 0:
+            out.append(f"BSim {_dir(d)} {w} {_inv(inv)}")
+        else:
+            out.append(f"{'BSingle' if k == 1 else 'BDiff'} {_odir(d)} {w} {_inv(inv)}")
+    return "[" + "; ".join(out) + "]"
 
 
 def coq_term(c):
@@ -724,19 +928,26 @@ def coq_term(c):
         st = "[" + "; ".join(f"({z(o)}, {z(oe)}, {zlist(iv)})" for o, oe, iv in c["steps"]) + "]"
         return f"k_buf {_bases(c['bases'])} {_expr(c['e'])} {_dir(c['bd'])} {st}"
     if k == "ff":
-        kw = _ff_doms(c)[0]
-        st = "[" + "; ".join(f"({z(o)}, {z(oe)}, {zlist(iv)}, {blit(ei)}, {blit(eo)})"
-                             for o, oe, iv, ei, eo in c["steps"]) + "]"
-        return (f"k_ff {_bases(c['bases'])} {_expr(c['e'])} {_dir(c['bd'])} {blit('i_domain' in kw)} "
-                f"{blit('o_domain' in kw)} {st}")
-    if k == "net":
+        st = "[" + "; ".join(f"({z(o)}, {z(oe)}, {zlist(iv)}, Tk {blit(t[0])} {blit(t[1])} {blit(t[2])})"
+                             for o, oe, iv, t in c["steps"]) + "]"
+        return (f"k_ff {_bases(c['bases'])} {_expr(c['e'])} {_dir(c['bd'])} {_dom(c['idom'])} {_dom(c['odom'])} {st}")
+    if k == "multi":
         bufs = "[" + "; ".join(f"({_dir(bd)}, {_expr(e)})" for bd, e in c["bufs"]) + "]"
+        st = "[" + "; ".join("([" + "; ".join(f"({z(o)}, {z(oe)})" for o, oe in oes) + f"], {zlist(iv)})"
+                             for oes, iv in c["steps"]) + "]"
+        return f"k_multi {_bases(c['bases'])} {bufs} {st}"
+    if k == "net":
+        bufs = "[" + "; ".join(
+            f"({_dir(bd)}, {_expr(e)}, " + ("None" if ff is None else f"Some ({_dom(ff[0])}, {_dom(ff[1])})") + ")"
+            for bd, e, ff in c["bufs"]) + "]"
         return f"k_net {_bases(c['bases'])} {bufs}"
     raise ValueError(k)
 
 
 def explain(c):
     return ("model answer: [0, err] (1 IndexError, 2 ValueError, 3 TypeError, 4 DriverConflict) or 1 :: payload; "
-            "port: kind, dir, len, len(n), len(invert), invert bits, (base, bit) wires; buf/ff: per step the o words of the "
-            "base ports that have one, their oe words, then the buffer's i; net: #cells, then per buffer its cells "
-            "(dir, n, wires, #o, (o bit, inverted)...) and its i bits (cell, bit, inverted)")
+            "port: kind, dir, len, len(n), len(invert), invert bits, (base, bit) wires, Value tree (simulation ports); "
+            "buf/ff/multi: per step the o words of the base ports that have one, their oe words, then the buffers' i "
+            "(after -7: what the simulator's Slice-of-Cat lowering would give instead, finding C18-SIM-LHS-ALIAS); "
+            "net: #cells, then per buffer its cells (dir, n, wires, #o, (o bit, inverted)...), its i bits "
+            "(cell, bit, inverted) and the register stages (count, domain) on the o and on the i path")
